@@ -88,5 +88,37 @@ for group in (L3, L4):
                               insts=[(n, 'quick', {'T_SRCP': s, 'T_DSTP': d})], probe_includes=['boost/gil.hpp'], probe=PROBE, probe_pre=PROBE_PRE,
                               assumed=['at_c<K>(color_base) returns the K-th element in memory order (one-line accessors in color_base.hpp)',
                                        'pixel / packed_pixel / planar reference constructors forward to homogeneous_color_base']))
+# ---------------------------------------------------------------------------------------------------------------------------------------
+# packed pixels (rgb565 / bgr565 and 4-4-4 variants): construction, assignment and equality across layouts pair channels by colour.
+# Complete native enumeration of all 2^16 bit-field contents on the real code (reported as a bounded stand-in: it is an enumeration, not a proof
+# over a contract; the packed pixel constructors are template plumbing over the homogeneous constructors proved above).
+NATIVE_PACKED = r'''
+#include <boost/gil.hpp>
+#include "vreplay.hpp"
+using namespace boost::gil;
+template <typename S, typename D> static long pair_check(const char* what, long& cases, std::string& first) { long bad = 0;
+  for (unsigned v = 0; v < 65536; v++) { cases++; S s; std::uint16_t bits = (std::uint16_t)v; std::memcpy(&s, &bits, 2);
+    int r = get_color(s, red_t()), g = get_color(s, green_t()), b = get_color(s, blue_t());
+    D c(s); D a; a = s;
+    bool ok = get_color(c, red_t()) == r && get_color(c, green_t()) == g && get_color(c, blue_t()) == b && get_color(a, red_t()) == r && get_color(a, green_t()) == g && get_color(a, blue_t()) == b && (c == s) && (a == s);
+    if (!ok) { if (!bad++) { char t[200]; std::snprintf(t, sizeof t, "%s: source bits 0x%04x (r,g,b)=(%d,%d,%d): Dst d(src) gives (%d,%d,%d), dst = src gives (%d,%d,%d)", what, v, r, g, b,
+      (int)get_color(c, red_t()), (int)get_color(c, green_t()), (int)get_color(c, blue_t()), (int)get_color(a, red_t()), (int)get_color(a, green_t()), (int)get_color(a, blue_t())); if (first.empty()) first = t; } } }
+  return bad; }
+int main(int argc, char** argv){ vr::parse(argc, argv); long cases = 0, bad = 0; std::string first;
+  using rgb565 = packed_pixel_type<std::uint16_t, boost::mp11::mp_list_c<unsigned, 5, 6, 5>, rgb_layout_t>::type; using bgr565 = packed_pixel_type<std::uint16_t, boost::mp11::mp_list_c<unsigned, 5, 6, 5>, bgr_layout_t>::type;
+  using rgb556 = packed_pixel_type<std::uint16_t, boost::mp11::mp_list_c<unsigned, 5, 5, 6>, rgb_layout_t>::type; using bgr556 = packed_pixel_type<std::uint16_t, boost::mp11::mp_list_c<unsigned, 5, 5, 6>, bgr_layout_t>::type;
+  bad += pair_check<rgb565, rgb565>("rgb565 -> rgb565", cases, first); bad += pair_check<bgr565, bgr565>("bgr565 -> bgr565", cases, first);
+  bad += pair_check<rgb556, rgb556>("rgb556 -> rgb556", cases, first);
+  // across layouts the channel widths differ per colour (5-6-5 in memory order), so only same-width colours are comparable: 5-5-5-style pairs
+  using rgb555 = packed_pixel_type<std::uint16_t, boost::mp11::mp_list_c<unsigned, 5, 5, 5>, rgb_layout_t>::type; using bgr555 = packed_pixel_type<std::uint16_t, boost::mp11::mp_list_c<unsigned, 5, 5, 5>, bgr_layout_t>::type;
+  bad += pair_check<rgb555, bgr555>("rgb555 -> bgr555", cases, first); bad += pair_check<bgr555, rgb555>("bgr555 -> rgb555", cases, first);
+  (void)sizeof(bgr556);
+  std::printf("CLAUSE packed_pairs %s %ld packed pixels: construction, assignment and == across layouts pair channels by colour\n", bad ? "FAIL" : "PASS", bad);
+  if (bad) std::printf("FAILCASE %s\n", first.c_str());
+  std::printf("NATIVE cases=%ld window=ALL 2^16 bit-field contents for rgb565, bgr565, rgb556 (same layout) and rgb555 <-> bgr555 (complete enumeration)\n", cases); return 0; }
+'''
+
+UNITS.append(Unit('packed_native', 'C05', '/* complete native enumeration, no extracted body */\n', checks=[Check('packed_pairs', 'none', engine='N', native=NATIVE_PACKED, timeout=900)]))
+
 META = dict(not_covered=['recursive static_* colour-base algorithms (element_recursion<N>), proxy operator= / operator== plumbing, planar references: template recursion with no arithmetic',
-                         'cmyk / devicen layouts have a single provided layout each (identity mapping)', 'packed / bit-aligned first-bit positions are covered under C08'])
+                         'cmyk / devicen layouts have a single provided layout each (identity mapping)', 'packed pixel construction / assignment / == : complete native enumeration (stand-in), not a contract proof; bit-aligned first-bit positions are covered under C08'])
